@@ -480,7 +480,7 @@ func main() {
 		if cfg["Stack"] == true {
 			sim, evs, rerr = csim.RunLiveStack(dir, powersOf(cfg), intsOf(cfg["Byz"]), int64(mbt.Int(cfg["MaxRound"])),
 				int64(mbt.Int(cfg["Heights"])), time.Duration(mbt.Int(cfg["LimitMs"]))*time.Millisecond, scaleOf(cfg),
-				optInt(cfg, "Laggard"), int64(optInt(cfg, "LagUntil")), optInt(cfg, "StopNode"))
+				optInt(cfg, "Laggard"), int64(optInt(cfg, "LagUntil")), optInt(cfg, "StopNode"), optInt(cfg, "RestartNode"))
 		} else {
 			sim, evs, rerr = csim.RunLive(dir, powersOf(cfg), intsOf(cfg["Byz"]), int64(mbt.Int(cfg["MaxRound"])),
 				int64(mbt.Int(cfg["Heights"])), int64(mbt.Int(cfg["Seed"])), time.Duration(mbt.Int(cfg["LimitMs"]))*time.Millisecond, scaleOf(cfg), cfg["ByzActive"] == true)
